@@ -442,6 +442,84 @@ macro_rules! singular_native {
 singular_native!(singular_native_f64, f64);
 singular_native!(singular_native_f32, f32);
 
+
+/// native floats: matrices that are *nearly* something special - a rotation plus a translation, shear, perspective entry or
+/// scale error anywhere between 1e-14 and 1e-4 - are as invertible as any other well-conditioned matrix: M N = N M = I to
+/// rounding, not to the size of the perturbation
+fn invert_near_special_f64(d: &mut Draw) -> Outcome {
+    let n = d.int(2, 4) as usize;
+    let u = vcore::gen::f_unit_quat(d);
+    let r3 = qmat(&u);
+    let mut t = RM::<f64>::ident(n);
+    match n {
+        2 => {
+            let a = d.f64_in(-3.2, 3.2);
+            t.e[0][0] = a.cos();
+            t.e[0][1] = a.sin();
+            t.e[1][0] = -a.sin();
+            t.e[1][1] = a.cos();
+        }
+        _ => {
+            for c in 0..3 {
+                for r in 0..3 {
+                    t.e[c][r] = r3.e[c][r];
+                }
+            }
+        }
+    }
+    let base = match d.int(0, 3) { 0 => 1, _ => 0 };
+    if base == 1 {
+        // or nearly the identity / nearly diagonal
+        t = RM::<f64>::ident(n);
+        for i in 0..n {
+            t.e[i][i] = if d.bool() { 1.0 } else { d.f64_slog(0.5, 2.0) };
+        }
+    }
+    let k = d.int(1, 3);
+    for _ in 0..k {
+        let (c, r) = (d.below(n), d.below(n));
+        let delta = d.f64_slog(1e-14, 1e-4);
+        if d.chance(1, 4) {
+            // a uniform scale error
+            for cc in 0..n {
+                for rr in 0..n {
+                    t.e[cc][rr] *= 1.0 + delta;
+                }
+            }
+        } else {
+            t.e[c][r] += delta;
+        }
+    }
+    d.note("M", &t);
+    macro_rules! go {
+        ($mk:ident) => {{
+            let m = $mk(&t);
+            let inv = m.invert();
+            ensure!(inv.is_some(), "near-special-no-inverse", "a {}x{} matrix within 1e-4 of a rotation / diagonal matrix has no inverse", n, n);
+            let ni = inv.unwrap();
+            let e1 = (m * ni).rm().max_abs_diff(&RM::ident(n));
+            let e2 = (ni * m).rm().max_abs_diff(&RM::ident(n));
+            ensure!(e1 <= 1e-13 && e2 <= 1e-13, "near-special-inverse-inexact", "{}x{}: M*invert(M) differs from I by {:e}, invert(M)*M by {:e}", n, n, e1, e2);
+            let det = m.determinant();
+            ensure!(det.is_finite() && det != 0.0, "near-special-determinant", "determinant() = {:e}", det);
+        }};
+    }
+    match n {
+        2 => go!(mk_m2),
+        3 => {
+            let m = mk_m3(&t);
+            ensure!(Transform::<Point3<f64>>::inverse_transform(&m) == m.invert() && Transform::<Point2<f64>>::inverse_transform(&m) == m.invert(), "near-special-inverse_transform", "Matrix3::inverse_transform differs from invert()");
+            go!(mk_m3)
+        }
+        _ => {
+            let m = mk_m4(&t);
+            ensure!(Transform::<Point3<f64>>::inverse_transform(&m) == m.invert(), "near-special-inverse_transform", "Matrix4::inverse_transform differs from invert()");
+            go!(mk_m4)
+        }
+    }
+    pass(if base == 1 { "near-diagonal" } else { "near-rotation" }, true)
+}
+
 const RULE_INV: &str = "dense invertible (all entries and all first minors non-zero), or one of the constructed singular / low-rank / tiny-determinant classes";
 const RULE_D: &str = "all entries of A and B non-zero and det A != 0";
 const RULE_T: &str = "all entries non-zero, neither operand symmetric";
@@ -484,6 +562,7 @@ pub fn property() -> Property {
     const SNG: &[(&str, u32)] = &[("2x2-rows", 100), ("2x2-columns", 100), ("3x3", 200)];
     s.push(sc!("singular_native-f64", "f64", singular_native_f64, 4000, 300_000, 48, SNG, "every generated matrix (one column an exact power-of-two multiple of another; generic inexact entries)", false));
     s.push(sc!("singular_native-f32", "f32", singular_native_f32, 4000, 300_000, 48, SNG, "every generated matrix (one column an exact power-of-two multiple of another; generic inexact entries)", false));
+    s.push(sc!("invert_near_special-f64", "f64", invert_near_special_f64, 6000, 400_000, 80, &[("near-rotation", 300), ("near-diagonal", 100)], "every generated matrix (a rotation or diagonal matrix with 1-3 entries or the overall scale off by 1e-14..1e-4)", false));
     Property {
         id: "C02",
         title: "Inverse, determinant and transpose obey the laws of linear algebra",
